@@ -144,6 +144,7 @@ func cmdC14Gen(args []string) {
 var acrhNamePool = []string{"a", "b", "ab", "authorization", "content-type", "x-a", "x-ab", "x-abc", "x-b", "x-requested-with",
 	"x-long-header-name-aaaaaaaaaaaaaaaaaaaaaaaaaaaaaaaaaaaaaaaa", "zz", "accept", "x-a-b",
 	// lengths around the sizes of machine words, small buffers and counters (63..65, 128, 256)
+	"x_trace_id", "x^flag", "x`tick", "x|bar~t", "x!#$%&'*+.", // every token punctuation (case mapping must leave them alone)
 	"l63-" + strings.Repeat("d", 59), "l64-" + strings.Repeat("e", 60), "l65-" + strings.Repeat("f", 61),
 	"l128-" + strings.Repeat("h", 123), "l256-" + strings.Repeat("k", 251)}
 
